@@ -717,3 +717,236 @@ def mount_specs(rng, bases, quick=True):
         specs.append({"id": "mnt-%s-trunc" % bname, "base": base, "strict": True, "muts": [],
                       "truncate": [0, 1, 3, 11, 36, 62, 90, 509, 510, 511, 512, 513, 1023, 1024, 4095, 4096]})
     return specs
+
+
+# ------------------------------------------------------------------------------------------------
+# C15 / C16 / C18 campaigns
+
+def name_program(pid, cfg, names, lookups=None, origin="names"):
+    """create each name in a sub-directory (a handle is taken and dropped), list, then look names up"""
+    ops = [{"op": "create_dir", "at": "", "path": "d", "as": "D"}]
+    for i, nm in enumerate(names):
+        ops.append({"op": "create_file", "at": "D", "path": nm, "as": "n%d" % i})
+        ops.append({"op": "close", "h": "n%d" % i})
+    ops.append({"op": "list", "at": "D", "path": ""})
+    for j, (kind, nm) in enumerate(lookups or []):
+        if kind == "rename":
+            ops.append({"op": "rename", "at": "D", "src": nm[0], "to": "D", "dst": nm[1]})
+        else:
+            ops.append({"op": "open_file", "at": "D", "path": nm, "as": "l%d" % j})
+            ops.append({"op": "close", "h": "l%d" % j})
+    ops.append({"op": "list", "at": "D", "path": ""})
+    ops.append({"op": "unmount"})
+    return {"id": pid, "cfg": cfg, "ops": ops, "origin": origin}
+
+
+def bmp_points(quick):
+    pts = set()
+    bounds = [0x7F, 0x80, 0x81, 0xFF, 0x100, 0x17F, 0x7FF, 0x800, 0xFFF, 0x1000, 0xD7FF, 0xE000, 0xF8FF, 0xFEFF, 0xFFFD, 0xFFFE, 0xFFFF]
+    pts.update(bounds)
+    step = 97 if quick else 1
+    for c in range(0x80, 0x10000, step):
+        pts.add(c)
+    return sorted(c for c in pts if not (0xD800 <= c <= 0xDFFF))
+
+
+def name_sets(rng, fold, quick=True):
+    """list of (names, lookups) batches"""
+    batches = []
+    # (a) every ASCII character in first, middle and last position ('/' is the path separator)
+    asc = [c for c in range(1, 128) if c != 47]
+    for pos in (0, 1, 2):
+        names = []
+        for c in asc:
+            ch = chr(c)
+            names.append([ch + "q%d" % c, "p" + ch + "q%d" % c, "pq%d" % c + ch][pos])
+        for i in range(0, len(names), 14):
+            batches.append((names[i:i + 14], []))
+    # names made only of dots and spaces, and the empty name (a path of slashes)
+    batches.append(([" ", "  ", "...", ". .", " .", ".a", "a.", "a ", " a", "a..b", "a. .b"], [("open", "A."), ("open", ".A")]))
+    # (b) BMP code points in first, middle and last position, astral samples
+    pts = bmp_points(quick)
+    for pos in (0, 1, 2):
+        names = []
+        for c in pts:
+            ch = chr(c)
+            names.append([ch + "x%X" % c, "y" + ch + "%X" % c, "z%X" % c + ch][pos])
+        for i in range(0, len(names), 14):
+            batches.append((names[i:i + 14], []))
+    astral = [0x10000, 0x10400, 0x1F600, 0x2FFFF, 0x10FFFF] + ([] if quick else [rng.randrange(0x10000, 0x110000) for _ in range(2000)])
+    for i in range(0, len(astral), 10):
+        batches.append(([chr(c) + "a" for c in astral[i:i + 10]] + ["b" + chr(c) for c in astral[i:i + 10]], []))
+    # (c) every length 0..300 with 1-, 2-, 3- and 4-byte characters
+    lens = list(range(0, 301)) if not quick else sorted(set(list(range(0, 20)) + [84, 85, 86, 126, 127, 128, 129] + list(range(250, 262)) + [300]))
+    for ch in ("a", "\u00e9", "\u20ac", "\U0001F600"):
+        for i in range(0, len(lens), 6):
+            names = [ch * n for n in lens[i:i + 6]]
+            # an empty string is a path that names nothing: expressed as a single slash
+            names = [n if n else "/" for n in names]
+            batches.append((names, []))
+    # (d) case pairs and near misses
+    keys = sorted(int(k) for k in fold)
+    pick = keys if not quick else keys[::9] + [223, 454, 0x149, 0x1F0, 0x390, 0x3B0, 0xFB00, 0xFB06, 0x1E96]
+    pick = sorted(set(k for k in pick if str(k) in fold))
+    for i in range(0, len(pick), 8):
+        names, lookups = [], []
+        for c in pick[i:i + 8]:
+            up = "".join(chr(u) for u in fold[str(c)])
+            base = "n%X" % c
+            nm = base + chr(c) + ".t"
+            names.append(nm)
+            lookups.append(("open", base + up + ".T"))          # must hit (upper-case expansion)
+            lookups.append(("open", base.lower() + chr(c) + ".T"))
+            lookups.append(("open", base + chr(c)))              # near misses
+            lookups.append(("open", base + up + up + ".t"))
+            lookups.append(("open", base + chr(c) + ".tt"))
+        batches.append((names, lookups))
+    # ASCII case pairs, alias lookups and renames to invalid names
+    batches.append((["MixedCase.Txt", "long file name with spaces.text", "UPPER.TXT", "lower.txt", "a.b.c.d", "Caf\u00e9.txt"],
+                    [("open", "mixedcase.TXT"), ("open", "LONG FILE NAME WITH SPACES.TEXT"), ("open", "LONGFI~1.TEX"), ("open", "longfi~1.tex"),
+                     ("open", "upper.txt"), ("open", "LOWER.TXT"), ("open", "A.B.C.D"), ("open", "ABCD~1.D"), ("open", "mixedcase"), ("open", "mixedcase.tx"),
+                     ("open", "CAF\u00c9.TXT"), ("open", "CAFE.TXT"),
+                     ("rename", ("UPPER.TXT", "bad:name")), ("rename", ("lower.txt", "")), ("rename", ("lower.txt", "x" * 256)), ("rename", ("lower.txt", "ok name")),
+                     ("rename", ("a.b.c.d", "tab\there")), ("rename", ("MixedCase.Txt", "\u00e9" * 128))]))
+    return batches
+
+
+def bsd16(name):
+    c = 0
+    for ch in name:
+        c = ((c >> 1) + ((c & 1) << 15) + (ord(ch) & 0xFFFF)) & 0xFFFF
+    return c
+
+
+def colliding_names(rng, n, prefix="ab", ext="txt"):
+    """names sharing the first two characters, the extension and the 16-bit name checksum the alias generator uses"""
+    buckets = {}
+    i = 0
+    while True:
+        nm = "%s%s-%d.%s" % (prefix, "".join(rng.choice("cdefgh") for _ in range(4)), i, ext)
+        i += 1
+        b = buckets.setdefault(bsd16(nm), [])
+        b.append(nm)
+        if len(b) >= n:
+            return b
+        if i > 3000000:
+            return max(buckets.values(), key=len)
+
+
+def alias_program(rng, pid, cfg, names, removals=0.15, every=1):
+    ops = [{"op": "create_dir", "at": "", "path": "d", "as": "D"}]
+    live = []
+    for i, nm in enumerate(names):
+        ops.append({"op": "create_file", "at": "D", "path": nm})
+        live.append(nm)
+        if live and rng.random() < removals:
+            v = rng.choice(live)
+            live.remove(v)
+            ops.append({"op": "remove", "at": "D", "path": v})
+    ops.append({"op": "list", "at": "D", "path": ""})
+    ops.append({"op": "unmount"})
+    return {"id": pid, "cfg": cfg, "ops": ops, "origin": "alias"}
+
+
+def stamp_values(rng, quick=True):
+    """<<y,m,d,h,mi,s,ms>> tuples: full ranges of each field against boundary values of the others"""
+    vals = []
+    ys, ms_, ds = [1980, 1981, 2000, 2038, 2099, 2100, 2106, 2107], [1, 2, 6, 11, 12], [1, 2, 15, 28, 29, 30, 31]
+    hs, mis, ss, mss = [0, 1, 11, 12, 22, 23], [0, 1, 30, 58, 59], [0, 1, 2, 29, 30, 31, 58, 59], [0, 1, 9, 10, 11, 499, 500, 989, 990, 999]
+    for y in range(1980, 2108):
+        vals.append((y, rng.choice(ms_), rng.choice(ds), rng.choice(hs), rng.choice(mis), rng.choice(ss), rng.choice(mss)))
+    for m in range(1, 13):
+        for d in range(1, 32):
+            vals.append((rng.choice(ys), m, d, rng.choice(hs), rng.choice(mis), rng.choice(ss), rng.choice(mss)))
+    for h in range(24):
+        for s in range(60):
+            vals.append((rng.choice(ys), rng.choice(ms_), rng.choice(ds), h, rng.choice(mis), s, rng.choice(mss)))
+    for mi in range(60):
+        vals.append((rng.choice(ys), rng.choice(ms_), rng.choice(ds), rng.choice(hs), mi, rng.choice(ss), rng.choice(mss)))
+    for ms in range(0, 1000, 1 if not quick else 7):
+        for s in (0, 1, 58, 59):
+            vals.append((rng.choice(ys), rng.choice(ms_), rng.choice(ds), rng.choice(hs), rng.choice(mis), s, ms))
+    if not quick:
+        for y in range(1980, 2108):
+            for m in range(1, 13):
+                for d in range(1, 32):
+                    vals.append((y, m, d, rng.choice(hs), rng.choice(mis), rng.choice(ss), rng.choice(mss)))
+    return vals
+
+
+def stamp_program(rng, pid, cfg, triples, atime=False):
+    cfg = dict(cfg, atime=atime)
+    ops = [{"op": "create_file", "at": "", "path": "stamped.dat", "as": "s"}, {"op": "write_all", "h": "s", "pat": 1, "len": 10}, {"op": "close", "h": "s"},
+           {"op": "create_file", "at": "", "path": "other.dat", "as": "o"}, {"op": "close", "h": "o"}]
+    for (a, b, c) in triples:
+        ops.append({"op": "open_file", "at": "", "path": "stamped.dat", "as": "s"})
+        ops.append({"op": "set_created", "h": "s", "t": list(a)})
+        ops.append({"op": "set_modified", "h": "s", "t": list(b)})
+        ops.append({"op": "set_accessed", "h": "s", "t": list(c)})
+        ops.append({"op": rng.choice(["flush", "close"]), "h": "s"})
+        if ops[-1]["op"] == "flush":
+            ops.append({"op": "close", "h": "s"})
+    ops.append({"op": "unmount"})
+    return {"id": pid, "cfg": cfg, "ops": ops, "origin": "stamps"}
+
+
+def clock_program(rng, pid, cfg, cs, n_ops, atime):
+    """stamping rules under the harness clock: create, write, read (access date), rename, operations on other entries"""
+    cfg = dict(cfg, atime=atime)
+    ops = []
+    files = []
+    hs = {}
+    n = 0
+
+    def tick():
+        t = [rng.randrange(1980, 2108), rng.randrange(1, 13), rng.randrange(1, 29), rng.randrange(24), rng.randrange(60), rng.randrange(60), rng.randrange(1000)]
+        ops.append({"op": "clock", "t": t})
+
+    tick()
+    ops.append({"op": "create_dir", "at": "", "path": "sub"})
+    for _ in range(n_ops):
+        if rng.random() < 0.5:
+            tick()
+        r = rng.random()
+        if r < 0.2 or not files:
+            n += 1
+            nm = rng.choice(["", "sub/"]) + "f%d.txt" % n
+            h = "h%d" % n
+            ops.append({"op": "create_file", "at": "", "path": nm, "as": h})
+            files.append(nm)
+            hs[h] = nm
+        elif r < 0.4 and hs:
+            h = rng.choice(list(hs))
+            ops.append({"op": "write_all", "h": h, "pat": n, "len": rng.choice([0, 1, cs, cs + 1])})
+        elif r < 0.55 and hs:
+            h = rng.choice(list(hs))
+            ops.append({"op": "seek", "h": h, "from": "start", "off": 0})
+            ops.append({"op": "read_all", "h": h, "len": rng.choice([0, 1, cs])})
+        elif r < 0.7 and hs:
+            h = rng.choice(list(hs))
+            ops.append({"op": rng.choice(["flush", "close"]), "h": h})
+            if ops[-1]["op"] == "close":
+                del hs[h]
+        elif r < 0.8:
+            closed = [f for f in files if f not in hs.values()]
+            if closed:
+                f = rng.choice(closed)
+                n += 1
+                h = "h%d" % n
+                ops.append({"op": "open_file", "at": "", "path": f, "as": h})
+                hs[h] = f
+        elif r < 0.9:
+            closed = [f for f in files if f not in hs.values()]
+            if closed:
+                f = rng.choice(closed)
+                n += 1
+                g = rng.choice(["", "sub/"]) + "r%d.txt" % n
+                ops.append({"op": "rename", "at": "", "src": f, "to": "", "dst": g})
+                files[files.index(f)] = g
+        else:
+            h = rng.choice(list(hs)) if hs else None
+            if h:
+                ops.append({"op": "seek", "h": h, "from": "start", "off": rng.choice([0, 1])})
+                ops.append({"op": "truncate", "h": h})
+    ops.append({"op": "unmount"})
+    return {"id": pid, "cfg": cfg, "ops": ops, "origin": "clock"}
